@@ -80,10 +80,10 @@ func (pdb *PebbleKV) DeletePrefix(prefix []byte) error {
 // HasKey returns true if the key is exists in kvstore
 func (pdb *PebbleKV) HasKey(id []byte) bool {
 	_, c, err := pdb.db.Get(id)
-	c.Close()
 	if err != nil {
 		return false
 	}
+	c.Close()
 	return true
 }
 
@@ -106,10 +106,10 @@ type pebbleTransaction struct {
 
 func (ptx pebbleTransaction) HasKey(id []byte) bool {
 	_, c, err := ptx.db.Get(id)
-	c.Close()
 	if err != nil {
 		return false
 	}
+	c.Close()
 	return true
 }
 
